@@ -191,6 +191,8 @@ def assigned_names(stmts, local_defs):
                     fields.add(f.value.attr)
             if isinstance(f, ast.Name) and f.id == "setattr" and n.args and isinstance(n.args[0], ast.Name):
                 names.add(n.args[0].id)
+            if isinstance(f, ast.Name) and f.id == "next" and n.args and isinstance(n.args[0], ast.Name):
+                names.add("__pos_" + n.args[0].id)
             if isinstance(f, ast.Name) and f.id in local_defs and f.id not in seen_defs:
                 seen_defs.add(f.id)
                 d = local_defs[f.id]
@@ -615,6 +617,8 @@ class Exec:
     def assign(self, t, v, mutate=False):
         if isinstance(t, ast.Name):
             v = self.typed_empty(t.id, v)
+            if getattr(v, "is_iterator", False):
+                self.env.set("__pos_" + t.id, z3.IntVal(0))  # position of the iterator bound to this name
             if mutate and self.env.lookup_env(t.id) is not None:
                 # in-place mutation of a container held by a (possibly enclosing) variable
                 self.note_mutation(self.env.get(t.id), v)
@@ -1327,10 +1331,12 @@ class Exec:
             if is_z3(ov) and ov.sort() == V.Elem:
                 return ov == self.prop.elem_of_str(sv.s)
             return z3.BoolVal(False)  # a str never equals a non-str value
+        if isinstance(a, ObjV) and not identity and self.prop.has_eq_override(a.cls) and not isinstance(b, ObjV):
+            return self.call_method(a, "__eq__", [b], {}, None)  # e.g. pandas Index == scalar: an elementwise mask
         if isinstance(a, ObjV) and isinstance(b, ObjV):
             if identity or not self.prop.has_eq_override(a.cls):
                 return a.ref == b.ref
-            raise Unsupported("== on objects with __eq__")
+            return self.call_method(a, "__eq__", [b], {}, None)
         if isinstance(a, Tup) and isinstance(b, Tup):
             if len(a.items) != len(b.items):
                 return z3.BoolVal(False)
@@ -1467,6 +1473,11 @@ class Exec:
         return self.load_index(base, idx, e)
 
     def load_index(self, base, idx, node=None):
+        if isinstance(base, OptV):
+            # subscript on a maybe-None value: None raises TypeError
+            if self.decide(base.isnone):
+                raise RaiseEx("TypeError", getattr(node, "lineno", 0))
+            base = base.val
         if is_z3(base) and base.sort() == V.Val:
             return self.prop.theory.item(base, to_num(idx))
         if isinstance(base, Tup):
